@@ -356,6 +356,18 @@ kernel('G19_field_ctor', 'bisturi/field.py',
         ('Int', '__init__'), ('Int', 'unpack'), ('Int', 'pack'), ('Data', '__init__'), ('Data', '_compile'), ('Data', 'unpack'), ('Em', '__init__')],
        'FieldCtorGen', {}, extra='Definition field_ctor_template_matched : bool := true.')
 
+# ---- the remaining small functions (constructors, debugging fields, the unimplemented pack_regexp of structural fields): template only
+kernel('G20a_frag_misc', 'bisturi/fragments.py', [('Fragments', '__init__'), ('Fragments', '__repr__'), ('Fragments', '__eq__')],
+       'FragMiscGen', {}, extra='Definition frag_misc_template_matched : bool := true.')
+kernel('G20b_packet_misc', 'bisturi/packet.py', [(None, '_with_metaclass'), ('Packet', 'as_prototype'), ('Packet', 'iterative_unpack'), ('Prototype', 'clone')],
+       'PacketMiscGen', {}, extra='Definition packet_misc_template_matched : bool := true.')
+kernel('G20c_auto_ctor', 'bisturi/descriptor.py', [('Auto', '__init__'), ('Auto', '_compile')],
+       'AutoCtorGen', {}, extra='Definition auto_ctor_template_matched : bool := true.')
+kernel('G20d_field_misc', 'bisturi/field.py', [('Field', 'pack_regexp'), ('Bkpt', '__init__'), ('Bkpt', 'init'), ('Bkpt', 'unpack'), ('Bkpt', 'pack'), ('Bkpt', 'pack_regexp')],
+       'FieldMiscGen', {}, extra='Definition field_misc_template_matched : bool := true.')
+kernel('G20e_structural_regexp', 'bisturi/structural_fields.py', [('Sequence', 'pack_regexp'), ('Optional', 'pack_regexp')],
+       'StructRegexpGen', {}, extra='Definition struct_regexp_template_matched : bool := true.')
+
 
 def translate_kernel(kid):
     k = KERNELS[kid]
